@@ -264,6 +264,7 @@ func main() {
 
 	// failures: shrink the first few, report all kinds once per (kind, stream)
 	nfail := 0
+	oracleListed := 0 // listed failures of the oracle on generated (unnamed) cases
 	for i, c := range cases {
 		e := results[i]
 		if !e.failed() {
@@ -271,7 +272,15 @@ func main() {
 		}
 		nfail++
 		if nfail > 12 {
-			continue
+			// beyond the first 12 failing cases only failing INPUTS are still listed (oracle
+			// failures of generated cases, at most 3 in all): a stream that comes late must not have
+			// its failing inputs hidden behind twelve correspondence failures of an earlier stream
+			if e.oracle == "" || e.herr != "" || c.Name != "" || oracleListed >= 3 {
+				continue
+			}
+		}
+		if e.oracle != "" && e.herr == "" && c.Name == "" {
+			oracleListed++
 		}
 		shr := false
 		if sh, ok := p.(props.Shrinker); ok && e.herr == "" && c.Name == "" {
@@ -302,7 +311,7 @@ func main() {
 		rep.Failures = append(rep.Failures, ff)
 	}
 	if nfail > len(rep.Failures) {
-		rep.Failures = append(rep.Failures, Failure{Kind: "summary", Detail: fmt.Sprintf("%d failing cases in total; the first %d are listed", nfail, len(rep.Failures))})
+		rep.Failures = append(rep.Failures, Failure{Kind: "summary", Detail: fmt.Sprintf("%d failing cases in total; %d are listed (the first 12, then up to 3 oracle failures)", nfail, len(rep.Failures))})
 	}
 
 	// samples and the vm_compute cross-check sample
